@@ -674,6 +674,8 @@ def run(ctx: Ctx) -> int:
         ctx.sample({"hist": r["hist"], "events": r["events"][:12]})
     ctx.assume("GetKey requests are observed at the reference DC (own codec), results judged with the reference KEK (evaluator)")
     ctx.assume("asyncio interleaving points: delivery of the GetKey response and tear-down of the ISD_KEY connection (the only awaits between lookup and store)")
+    from .. import faultsim
+    faultsim.check(ctx, "C10")   # the same statement through the public API: peer faults at every step of the online conversation (OnlineFaults.tla)
     return ctx.finish(
         rule="histories = TLC-simulated behaviours of KeyCache.tla (replayed step by step into the real sync/async API with one shared "
         "KeyCache, reference DC behind the scripted transport) + randomized histories over the full position lattice; every "
